@@ -145,6 +145,10 @@ def better [LT α] [DecidableLT α] (ltInf : α → Bool) (best : Option (Run α
   | none => if ltInf r.inertia then some r else none
   | some b => if r.inertia < b.inertia then some r else some b
 
+/-- the sentinel test the code performs: `inertia < min_inertia` while `min_inertia` still holds its
+initial value `T` (`F::infinity()`); the driver runs `fit` with `ltThr +∞` -/
+def ltThr [LT α] [DecidableLT α] (T : α) (x : α) : Bool := decide (x < T)
+
 /-- the restart loop over the initial matrices of the runs -/
 def fitRuns [Add α] [Div α] [OfNat α 0] [NatCast α] [LT α] [DecidableLT α]
     (rd : List α → List α → α) (conv : List (List α) → List (List α) → Bool) (ltInf : α → Bool)
